@@ -290,6 +290,9 @@ def check_property(prop, tier, seed, out=print):
                                  "note": "found by concrete replay of committed solver witnesses after a model gap"}
                             confirmed.append((v, r, write_replay_file(prop, tier, h.name, v, r)))
 
+            if confirmed and os.environ.get("VERIF_FAILFAST"):
+                out("  [%s] skipped: VERIF_FAILFAST is set and a violation is already confirmed" % h.name)
+                continue  # (sweeps over seeded changes only need the verdict; never set for registered commands)
             agg = run_harness(prop, tier, hi, h, pool, out)
             results.append(agg)
             out("  [%s] %s: %d paths (%d non-trivial), %d queries, solver %.1fs, wall %.1fs, %d violating paths"
@@ -438,7 +441,7 @@ def write_evidence(prop, tier, seed, results, traces_validated, nviol, known_key
             "digest algorithms (md5, sha1, sha512, xxh32/64/3-64/3-128) compute the standard functions and are "
             "collision-free on the inputs of one run (modelled as injective uninterpreted functions)",
             "lxml serialises/parses the XML infoset faithfully; escaping and encodings are outside the model",
-            "POSIX path semantics; no symlinks, special files or permission errors",
+            "POSIX path semantics; symbolic links only where a harness names them (c14-side-effects, c19-linked); no special files or permission errors",
             "click option parsing is exercised only in the real replays; symbolic runs start at the command callbacks",
             "bounds per harness are listed under coverage.harnesses[*].bounds; nothing is claimed outside them",
         ],
